@@ -1,80 +1,74 @@
-(* Lemmas/FrameLemmas.v — the transaction machinery of Model/Ledger.v only writes the balance,
-   relation, history, holding and bank tables: every projection of the database that is invariant
-   under those writes is invariant under the whole machinery.  Instantiated with pn_rate,
-   pn_grade/pn_winners, the snapshots, the sync height and pn_sync_version. *)
-From Model Require Import Ledger.
-From Lemmas Require Import DbLemmas LedgerLemmas.
+(* Lemmas/FrameLemmas.v — every change the model makes to the database goes through a small
+   set of storage operations.  If a projection π of the database moves along a preorder R under
+   each of those operations, it moves along R under the whole transaction machinery
+   (Model/Ledger.v) and under a whole block (Model/Block.v).  With R := eq this gives frame
+   properties (what a block does not touch); with an inclusion order it gives monotonicity
+   (rows are never deleted, recorded rates never change). *)
+From Model Require Import Block.
+From Lemmas Require Import DbLemmas LedgerLemmas BlockLemmas.
 From Gen Require Import Consts.
+From Coq Require Import RelationClasses.
 Open Scope Z_scope.
 
-Section Frame.
-Context {A : Type} (π : db -> A).
-Hypothesis π_bal : forall s v, π (set_bal s v) = π s.
-Hypothesis π_rel : forall s v, π (set_rel s v) = π s.
-Hypothesis π_hist : forall s v, π (set_hist s v) = π s.
-Hypothesis π_htxs : forall s v l, π (set_htxs s v l) = π s.
-Hypothesis π_holding : forall s v, π (set_holding s v) = π s.
-Hypothesis π_bank : forall s v, π (set_bank s v) = π s.
+Section Pres.
+Context {A : Type} (π : db -> A) (R : A -> A -> Prop) {PO : PreOrder R}.
+Hypothesis Hbal : forall s v, R (π s) (π (set_bal s v)).
+Hypothesis Hrel : forall s a hs i t cv, R (π s) (π (insert_relation s a hs i t cv)).
+Hypothesis Hexec : forall s hs code, R (π s) (π (set_executed s hs code)).
+Hypothesis Hhb : forall s r s', insert_hbatch s r = Ok s' -> R (π s) (π s').
+Hypothesis Hamt : forall s hs i amt, R (π s) (π (set_to_amount s hs i amt)).
+Hypothesis Hpeg : forall s hs i amt o, R (π s) (π (set_peg_request_amounts s hs i amt o)).
+Hypothesis Hhtx : forall s r lk s', insert_htx s r lk = Ok s' -> R (π s) (π s').
+Hypothesis Hhold : forall s e h s', insert_holding s e h = Ok s' -> R (π s) (π s').
+Hypothesis Hbank : forall s h a s', insert_bank s h a = Ok s' -> R (π s) (π s').
+Hypothesis Hubank : forall s h u r s', update_bank s h u r = Ok s' -> R (π s) (π s').
 
-Lemma fr_add s a t v s' : add_to_balance s a t v = Ok s' -> π s' = π s.
-Proof. intros H. apply add_to_balance_ok in H as (_ & _ & ->). apply π_bal. Qed.
-Lemma fr_sub s a t v s' : sub_from_balance s a t v = SubOk s' -> π s' = π s.
-Proof. intros H. apply sub_from_balance_ok in H as (_ & _ & _ & ->). apply π_bal. Qed.
-Lemma fr_insert_relation s a hs i t cv : π (insert_relation s a hs i t cv) = π s.
-Proof. unfold insert_relation. destruct (existsb _ _); [reflexivity|apply π_rel]. Qed.
-Lemma fr_set_executed s hs code : π (set_executed s hs code) = π s.
-Proof. apply π_hist. Qed.
-Lemma fr_set_to_amount s hs i amt : π (set_to_amount s hs i amt) = π s.
-Proof. apply π_htxs. Qed.
-Lemma fr_set_peg_request_amounts s hs i amt o : π (set_peg_request_amounts s hs i amt o) = π s.
-Proof. apply π_htxs. Qed.
-Lemma fr_insert_hbatch s r s' : insert_hbatch s r = Ok s' -> π s' = π s.
-Proof. unfold insert_hbatch. destruct (hist_has_at _ _ _); [discriminate|]. intros H; inversion H; apply π_hist. Qed.
-Lemma fr_insert_htx s r lk s' : insert_htx s r lk = Ok s' -> π s' = π s.
-Proof. unfold insert_htx. destruct (htx_has _ _ _); [discriminate|]. intros H; inversion H; apply π_htxs. Qed.
-Lemma fr_insert_holding s e h s' : insert_holding s e h = Ok s' -> π s' = π s.
-Proof. unfold insert_holding. destruct (holding_has _ _); [discriminate|]. intros H; inversion H; apply π_holding. Qed.
-Lemma fr_insert_bank s h a s' : insert_bank s h a = Ok s' -> π s' = π s.
-Proof. unfold insert_bank. destruct (bank s !! h); [discriminate|]. intros H; inversion H; apply π_bank. Qed.
-Lemma fr_update_bank s h u r s' : update_bank s h u r = Ok s' -> π s' = π s.
-Proof. unfold update_bank. destruct (bank s !! h) as [[[? ?] ?]|]; [|discriminate]. intros H; inversion H; apply π_bank. Qed.
+Local Ltac tr x := transitivity (π x).
 
-(* a fold of steps each preserving π preserves π *)
-Lemma fr_fold {X} (f : db -> X -> res db) (l : list X) :
-  (forall s x s', f s x = Ok s' -> π s' = π s) ->
-  forall s s', fold_left (fun r x => let? s0 := r in f s0 x) l (Ok s) = Ok s' -> π s' = π s.
+Lemma pr_add s a t v s' : add_to_balance s a t v = Ok s' -> R (π s) (π s').
+Proof. intros H. apply add_to_balance_ok in H as (_ & _ & ->). apply Hbal. Qed.
+Lemma pr_sub s a t v s' : sub_from_balance s a t v = SubOk s' -> R (π s) (π s').
+Proof. intros H. apply sub_from_balance_ok in H as (_ & _ & _ & ->). apply Hbal. Qed.
+
+Lemma pr_fold {X} (f : db -> X -> res db) (l : list X) :
+  (forall s x s', f s x = Ok s' -> R (π s) (π s')) ->
+  forall s s', fold_left (fun r x => let? s0 := r in f s0 x) l (Ok s) = Ok s' -> R (π s) (π s').
 Proof.
   intros Hf s s' H.
-  exact (fold_res_inv (fun x => π x = π s) f l (fun s0 x s1 Hp Hs => eq_trans (Hf _ _ _ Hs) Hp) s s' eq_refl H).
+  refine (fold_res_inv (fun x => R (π s) (π x)) f l _ s s' _ H); [|reflexivity].
+  intros s0 x s1 Hp Hs. etransitivity; [exact Hp|eapply Hf; exact Hs].
 Qed.
 
 Section WithCfg.
 Variable c : cfg.
 
-Lemma fr_credit_transfers h hs idx ty trs s s' : credit_transfers c h hs idx ty trs s = Ok s' -> π s' = π s.
+Lemma pr_credit_transfers h hs idx ty trs s s' : credit_transfers c h hs idx ty trs s = Ok s' -> R (π s) (π s').
 Proof.
-  unfold credit_transfers. apply fr_fold. intros s0 tr s1 H.
+  unfold credit_transfers. apply pr_fold. intros s0 tr s1 H.
   destruct (tr_addr tr =? burn_addr c h); [inversion H; reflexivity|].
-  apply rbind_ok in H as (s2 & Ha & Hr). inversion Hr; subst. rewrite fr_insert_relation. eapply fr_add; exact Ha.
+  apply rbind_ok in H as (s2 & Ha & Hr). inversion Hr; subst. tr s2; [eapply pr_add; exact Ha|apply Hrel].
 Qed.
 
-Lemma fr_record_txs h hs rates avgs txs : forall idx s s',
-  record_txs c h hs rates avgs idx txs s = Ok s' -> π s' = π s.
+Lemma pr_record_txs h hs rates avgs txs : forall idx s s',
+  record_txs c h hs rates avgs idx txs s = Ok s' -> R (π s) (π s').
 Proof.
   induction txs as [|t txs IH]; intros idx s s' H; cbn [record_txs] in H; [inversion H; reflexivity|].
   destruct (sub_from_balance s (tx_addr t) (tx_type t) (tx_amt t)) as [s1| |code] eqn:Es; try discriminate.
-  pose proof (fr_sub _ _ _ _ _ Es) as E1.
-  set (s3 := set_executed (insert_relation s1 (tx_addr t) hs idx false (is_conversion t)) hs h) in *.
-  assert (E3 : π s3 = π s) by (unfold s3; rewrite fr_set_executed, fr_insert_relation; exact E1).
+  pose proof (pr_sub _ _ _ _ _ Es) as E1.
+  set (s2 := insert_relation s1 (tx_addr t) hs idx false (is_conversion t)) in *.
+  set (s3 := set_executed s2 hs h) in *.
+  assert (E3 : R (π s) (π s3)) by (tr s1; [exact E1|]; tr s2; [apply Hrel|apply Hexec]).
   destruct ((c_PegnetConversionLimitActivation c <=? h) && is_peg_request t).
-  - destruct (conv_of c h rates avgs t); [|discriminate]. rewrite (IH _ _ _ H). exact E3.
+  - destruct (conv_of c h rates avgs t); [|discriminate]. tr s3; [exact E3|eapply IH; exact H].
   - destruct (is_conversion t).
     + destruct (conv_of c h rates avgs t) as [out|]; [|discriminate].
-      apply rbind_ok in H as (s5 & Hadd & Hrest). rewrite (IH _ _ _ Hrest), (fr_add _ _ _ _ _ Hadd), fr_set_to_amount. exact E3.
-    + apply rbind_ok in H as (s4 & Hc & Hrest). rewrite (IH _ _ _ Hrest), (fr_credit_transfers _ _ _ _ _ _ _ Hc). exact E3.
+      apply rbind_ok in H as (s5 & Hadd & Hrest).
+      tr s3; [exact E3|]. tr (set_to_amount s3 hs idx out); [apply Hamt|]. tr s5; [eapply pr_add; exact Hadd|eapply IH; exact Hrest].
+    + apply rbind_ok in H as (s4 & Hc & Hrest).
+      tr s3; [exact E3|]. tr s4; [eapply pr_credit_transfers; exact Hc|eapply IH; exact Hrest].
 Qed.
 
-Lemma fr_apply_batch h s hs txs rates avgs s' : apply_batch c h s hs txs rates avgs = BApplied s' -> π s' = π s.
+Lemma pr_apply_batch h s hs txs rates avgs s' : apply_batch c h s hs txs rates avgs = BApplied s' -> R (π s) (π s').
 Proof.
   unfold apply_batch.
   destruct (check_txs c h s rates avgs txs) as [r|] eqn:E1.
@@ -82,126 +76,279 @@ Proof.
   destruct (sim_txs c h _ rates avgs (bal s) txs) as [r|] eqn:E2.
   { intros ->. exfalso. eapply sim_txs_not_applied; exact E2. }
   unfold record_batch. destruct (record_txs c h hs rates avgs 0 txs s) eqn:E; try discriminate.
-  intros H; inversion H; subst. eapply fr_record_txs; exact E.
+  intros H; inversion H; subst. eapply pr_record_txs; exact E.
 Qed.
 
-Lemma fr_pay_request h rates reqs s p s' : pay_request c h rates reqs s p = Ok s' -> π s' = π s.
+Lemma pr_pay_request h rates reqs s p s' : pay_request c h rates reqs s p = Ok s' -> R (π s) (π s').
 Proof.
   unfold pay_request. destruct (find _ reqs); [|intros H; inversion H; reflexivity].
   intros H. apply rbind_ok in H as (s2 & H1 & H2).
-  rewrite (fr_add _ _ _ _ _ H2), (fr_add _ _ _ _ _ H1). apply fr_set_peg_request_amounts.
+  etransitivity; [apply Hpeg|]. tr s2; [eapply pr_add; exact H1|eapply pr_add; exact H2].
 Qed.
 
-Lemma fr_record_peg_requests h s batches rates avgs bankamt bh s' :
-  record_peg_requests c h s batches rates avgs bankamt bh = Ok s' -> π s' = π s.
+Lemma pr_record_peg_requests h s batches rates avgs bankamt bh s' :
+  record_peg_requests c h s batches rates avgs bankamt bh = Ok s' -> R (π s) (π s').
 Proof.
   unfold record_peg_requests, record_peg_requests_ord. cbv zeta.
   destruct (has_dup_txid _); [discriminate|]. intros H.
   apply rbind_ok in H as (s1 & H1 & H2).
-  assert (E1 : π s1 = π s) by (revert H1; apply fr_fold; intros; eapply fr_pay_request; eauto).
-  destruct (_ <=? bh); [rewrite (fr_update_bank _ _ _ _ _ H2); exact E1|inversion H2; subst; exact E1].
+  assert (E1 : R (π s) (π s1)) by (revert H1; apply pr_fold; intros; eapply pr_pay_request; eauto).
+  destruct (_ <=? bh); [tr s1; [exact E1|eapply Hubank; exact H2]|inversion H2; subst; exact E1].
 Qed.
 
-Lemma fr_apply_held cur rates avgs s e hh s' isp : apply_held c cur rates avgs s e hh = Ok (s', isp) -> π s' = π s.
+Lemma pr_apply_held cur rates avgs s e hh s' isp : apply_held c cur rates avgs s e hh = Ok (s', isp) -> R (π s) (π s').
 Proof.
   unfold apply_held. intros H.
   destruct (entry_valid_at c e hh) as [txs|]; [|inversion H; reflexivity].
-  destruct (_ && has_peg_conversion txs); [inversion H; apply fr_set_executed|].
-  destruct (entry_valid_at c e cur); [|inversion H; apply fr_set_executed].
+  destruct (_ && has_peg_conversion txs); [inversion H; apply Hexec|].
+  destruct (entry_valid_at c e cur); [|inversion H; apply Hexec].
   destruct (is_replay s (e_hash e)); [inversion H; reflexivity|].
   destruct (apply_batch c cur s (e_hash e) txs rates avgs) as [s2|code| |code] eqn:Eb; try discriminate;
-    inversion H; subst; try reflexivity; [eapply fr_apply_batch; exact Eb|apply fr_set_executed].
+    inversion H; subst; try reflexivity; [eapply pr_apply_batch; exact Eb|apply Hexec].
 Qed.
 
-Lemma fr_apply_held_height cm cur rates avgs hh s pegs s' pegs' :
-  apply_held_height c cm cur rates avgs hh (Ok (s, pegs)) = Ok (s', pegs') -> π s' = π s.
+Lemma pr_apply_held_height cm cur rates avgs hh s pegs s' pegs' :
+  apply_held_height c cm cur rates avgs hh (Ok (s, pegs)) = Ok (s', pegs') -> R (π s) (π s').
 Proof.
   unfold apply_held_height. cbn [rbind]. intros H.
   apply rbind_ok in H as ([s1 pegs1] & H1 & H2).
-  assert (E1 : π s1 = π s).
+  assert (E1 : R (π s) (π s1)).
   { pose (f := fun (st : db * list (hash * list tx)) (e : entry) =>
                  let '(s, pegs) := st in
                  let? r1 := apply_held c cur rates avgs s e hh in
                  let '(s', isp) := r1 in
                  Ok (s', if isp then pegs ++ [(e_hash e, default [] (e_batch e))] else pegs)).
-    assert (Hstep : forall st e st', π (fst st) = π s -> f st e = Ok st' -> π (fst st') = π s).
+    assert (Hstep : forall st e st', R (π s) (π (fst st)) -> f st e = Ok st' -> R (π s) (π (fst st'))).
     { intros [s0 p0] e [s2 p2] Hp Hs. cbn [fst] in *. unfold f in Hs.
       apply rbind_ok in Hs as ([s3 isp] & Ha & Hr). inversion Hr; subst.
-      rewrite (fr_apply_held _ _ _ _ _ _ _ _ Ha). exact Hp. }
-    exact (fold_res_inv (fun st => π (fst st) = π s) f _ Hstep (s, pegs) (s1, pegs1) eq_refl H1). }
+      etransitivity; [exact Hp|eapply pr_apply_held; exact Ha]. }
+    refine (fold_res_inv (fun st => R (π s) (π (fst st))) f _ Hstep (s, pegs) (s1, pegs1) _ H1). cbn. reflexivity. }
   destruct (_ && _).
-  - apply rbind_ok in H2 as (s2 & Hr & Hk). inversion Hk; subst. rewrite (fr_record_peg_requests _ _ _ _ _ _ _ _ Hr). exact E1.
+  - apply rbind_ok in H2 as (s2 & Hr & Hk). inversion Hk; subst. tr s1; [exact E1|eapply pr_record_peg_requests; exact Hr].
   - inversion H2; subst; exact E1.
 Qed.
 
-Lemma fr_apply_holding cm cur s rates avgs s' : apply_holding c cm cur s rates avgs = Ok s' -> π s' = π s.
+Lemma pr_apply_holding cm cur s rates avgs s' : apply_holding c cm cur s rates avgs = Ok s' -> R (π s) (π s').
 Proof.
   unfold apply_holding. intros H. cbv zeta in H.
   apply rbind_ok in H as ([s1 pegs] & H1 & H2).
-  assert (E1 : π s1 = π s).
+  assert (E1 : R (π s) (π s1)).
   { clear H2.
     match type of H1 with fold_left _ ?l _ = _ => remember l as hs eqn:Ehs; clear Ehs end.
-    assert (G : forall hs0 p0 s0, π s0 = π s ->
-                fold_left (fun acc hh => apply_held_height c cm cur rates avgs hh acc) hs0 (Ok (s0, p0)) = Ok (s1, pegs) -> π s1 = π s).
+    assert (G : forall hs0 p0 s0, R (π s) (π s0) ->
+                fold_left (fun acc hh => apply_held_height c cm cur rates avgs hh acc) hs0 (Ok (s0, p0)) = Ok (s1, pegs) -> R (π s) (π s1)).
     { induction hs0 as [|hh l IH]; intros p0 s0 Hp HF; cbn [fold_left] in HF; [inversion HF; subst; exact Hp|].
       destruct (apply_held_height c cm cur rates avgs hh (Ok (s0, p0))) as [[s2 p2]|code|code] eqn:E.
-      - eapply IH; [|exact HF]. rewrite (fr_apply_held_height _ _ _ _ _ _ _ _ _ E). exact Hp.
+      - eapply IH; [|exact HF]. etransitivity; [exact Hp|eapply pr_apply_held_height; exact E].
       - exfalso. clear -HF. induction l as [|y l IHl]; cbn in HF; [discriminate|auto].
       - exfalso. clear -HF. induction l as [|y l IHl]; cbn in HF; [discriminate|auto]. }
     eapply G; [reflexivity|exact H1]. }
   destruct (_ && _).
-  - destruct (bank s1 !! cur) as [[[am ?] ?]|]; rewrite (fr_record_peg_requests _ _ _ _ _ _ _ _ H2); exact E1.
+  - destruct (bank s1 !! cur) as [[[am ?] ?]|]; (tr s1; [exact E1|eapply pr_record_peg_requests; exact H2]).
   - inversion H2; subst; exact E1.
 Qed.
 
-Lemma fr_insert_history s e order h txs s' : insert_history s e order h txs = Ok s' -> π s' = π s.
+Lemma pr_insert_history s e order h txs s' : insert_history s e order h txs = Ok s' -> R (π s) (π s').
 Proof.
   unfold insert_history. intros H. apply rbind_ok in H as (s1 & H1 & H2).
-  rewrite <- (fr_insert_hbatch _ _ _ H1). revert H2. apply fr_fold. intros; eapply fr_insert_htx; eauto.
+  tr s1; [eapply Hhb; exact H1|]. revert H2. apply pr_fold. intros; eapply Hhtx; eauto.
 Qed.
 
-Lemma fr_apply_entry h s order e s' : apply_entry c h s order e = Ok s' -> π s' = π s.
+Lemma pr_apply_entry h s order e s' : apply_entry c h s order e = Ok s' -> R (π s) (π s').
 Proof.
   unfold apply_entry. intros H.
   destruct (entry_valid_at c e h) as [txs|]; [|inversion H; reflexivity].
   destruct (is_replay s (e_hash e)); [inversion H; reflexivity|].
   destruct (hist_has s (e_hash e)); [inversion H; reflexivity|].
-  apply rbind_ok in H as (s1 & H1 & H2). pose proof (fr_insert_history _ _ _ _ _ _ H1) as E1.
-  destruct (has_conversions txs); [rewrite (fr_insert_holding _ _ _ _ H2); exact E1|].
+  apply rbind_ok in H as (s1 & H1 & H2). pose proof (pr_insert_history _ _ _ _ _ _ H1) as E1.
+  destruct (has_conversions txs); [tr s1; [exact E1|eapply Hhold; exact H2]|].
   destruct (apply_batch c h s1 (e_hash e) txs ∅ ∅) as [s2|code| |code] eqn:Eb.
-  - inversion H2; subst. rewrite (fr_apply_batch _ _ _ _ _ _ _ Eb). exact E1.
-  - destruct (code =? -1); inversion H2; subst. rewrite fr_set_executed. exact E1.
+  - inversion H2; subst. tr s1; [exact E1|eapply pr_apply_batch; exact Eb].
+  - destruct (code =? -1); inversion H2; subst. tr s1; [exact E1|apply Hexec].
   - inversion H2; subst; exact E1.
   - discriminate.
 Qed.
 
-Lemma fr_apply_tx_block h s es s' : apply_tx_block c h s es = Ok s' -> π s' = π s.
+Lemma pr_apply_tx_block h s es s' : apply_tx_block c h s es = Ok s' -> R (π s) (π s').
 Proof.
   unfold apply_tx_block. generalize 0 as i.
-  assert (G : forall es0 i s0, π s0 = π s ->
-     snd (fold_left (fun acc e => let '(i, r) := acc in (i + 1, let? s' := r in apply_entry c h s' i e)) es0 (i, Ok s0)) = Ok s' -> π s' = π s).
+  assert (G : forall es0 i s0, R (π s) (π s0) ->
+     snd (fold_left (fun acc e => let '(i, r) := acc in (i + 1, let? s' := r in apply_entry c h s' i e)) es0 (i, Ok s0)) = Ok s' -> R (π s) (π s')).
   { induction es0 as [|e l IH]; intros i s0 Hp H; cbn [fold_left snd] in H; [inversion H; subst; exact Hp|].
     cbn [rbind] in H. destruct (apply_entry c h s0 i e) as [s1|code|code] eqn:E.
-    - eapply IH; [|exact H]. rewrite (fr_apply_entry _ _ _ _ _ E). exact Hp.
+    - eapply IH; [|exact H]. etransitivity; [exact Hp|eapply pr_apply_entry; exact E].
     - exfalso. clear -H. revert H. generalize (i + 1). induction l as [|y l IHl]; intros j H; cbn in H; [discriminate|eauto].
     - exfalso. clear -H. revert H. generalize (i + 1). induction l as [|y l IHl]; intros j H; cbn in H; [discriminate|eauto]. }
   intros i H. eapply G; [reflexivity|exact H].
 Qed.
-End WithCfg.
 
-Lemma fr_apply_factoid_block h s fs s' : apply_factoid_block h s fs = Ok s' -> π s' = π s.
+Lemma pr_apply_factoid_block h s fs s' : apply_factoid_block h s fs = Ok s' -> R (π s) (π s').
 Proof.
-  unfold apply_factoid_block. apply fr_fold. intros s0 f s1 H.
+  unfold apply_factoid_block. apply pr_fold. intros s0 f s1 H.
   destruct (is_burn f) as [[a v]|]; [|inversion H; reflexivity].
   apply rbind_ok in H as (s3 & H1 & H). apply rbind_ok in H as (s4 & H2 & H3).
-  rewrite (fr_insert_htx _ _ _ _ H3), (fr_insert_hbatch _ _ _ H2). eapply fr_add; exact H1.
+  tr s3; [eapply pr_add; exact H1|]. tr s4; [eapply Hhb; exact H2|eapply Hhtx; exact H3].
 Qed.
 
-Lemma fr_pay_winners s ts ws s' : pay_winners s ts ws = Ok s' -> π s' = π s.
+Lemma pr_pay_winners s ts ws s' : pay_winners s ts ws = Ok s' -> R (π s) (π s').
 Proof.
-  unfold pay_winners. apply fr_fold. intros s0 w s1 H.
+  unfold pay_winners. apply pr_fold. intros s0 w s1 H.
   destruct (w_addr w) as [a|]; [|inversion H; reflexivity].
   apply rbind_ok in H as (s3 & H1 & H). apply rbind_ok in H as (s4 & H2 & H3).
-  rewrite (fr_insert_htx _ _ _ _ H3), (fr_insert_hbatch _ _ _ H2). eapply fr_add; exact H1.
+  tr s3; [eapply pr_add; exact H1|]. tr s4; [eapply Hhb; exact H2|eapply Hhtx; exact H3].
 Qed.
-End Frame.
+
+(* ---- block level ------------------------------------------------------------------------ *)
+Hypothesis Hsnaps : forall s cu pa, R (π s) (π (set_snaps s cu pa)).
+Hypothesis Hgrade : forall h s v s', insert_grade h s v = Ok s' -> R (π s) (π s').
+Variable Ph : Z -> Prop.   (* the heights at which rates may be inserted *)
+Hypothesis Hrates : forall cm h s a ph s', Ph h -> insert_rates cm h s a ph = Ok s' -> R (π s) (π s').
+Hypothesis Hsynced : forall s h s', insert_synced s h = Ok s' -> R (π s) (π s').
+
+Lemma pr_mint_tokens s s' : mint_tokens s = Ok s' -> R (π s) (π s').
+Proof. unfold mint_tokens. generalize mint_list as l. intros l. apply pr_fold. intros; eapply pr_add; eauto. Qed.
+
+Lemma pr_sub_ignoring s a t v s' : sub_ignoring_txerr s a t v = Ok s' -> R (π s) (π s').
+Proof.
+  unfold sub_ignoring_txerr. destruct (sub_from_balance s a t v) eqn:E; intros H; inversion H; subst; [|reflexivity].
+  eapply pr_sub; exact E.
+Qed.
+
+Lemma pr_nullify_minted cm s s' : nullify_minted cm s = Ok s' -> R (π s) (π s').
+Proof. unfold nullify_minted. generalize mint_list as l. intros l. apply pr_fold. intros; eapply pr_sub_ignoring; eauto. Qed.
+
+Lemma pr_nullify_burn cm h ts s : R (π s) (π (nullify_burn c cm h ts s)).
+Proof.
+  unfold nullify_burn.
+  set (step := fun (acc : Z * Z * (bool * db)) (t : Z) => _).
+  generalize (0, (if c_V202EnhanceActivation c <=? h then 50 else 0)) as ij.
+  generalize true as live. generalize all_tickers as l.
+  assert (G : forall l live ij s0, R (π s) (π s0) -> R (π s) (π (snd (snd (fold_left step l (ij, (live, s0))))))).
+  { induction l as [|t l IH]; intros live ij s0 Hp; cbn [fold_left]; [exact Hp|].
+    destruct ij as [i j]. unfold step at 2. destruct live; cbn [negb]; [|apply IH; exact Hp].
+    set (a := if c_V202EnhanceActivation c <=? h then GlobalBurnAddress else GlobalOldBurnAddress).
+    set (s1 := match sub_ignoring_txerr s0 a t (get_bal (bal cm) a t) with Ok s' => s' | _ => s0 end).
+    assert (Hp1 : R (π s) (π s1)).
+    { unfold s1. destruct (sub_ignoring_txerr s0 a t (get_bal (bal cm) a t)) eqn:E; try exact Hp.
+      etransitivity; [exact Hp|eapply pr_sub_ignoring; exact E]. }
+    destruct (c_V202EnhanceActivation c <=? h); [apply IH; exact Hp1|].
+    destruct (insert_hbatch s1 _) as [s2|?|?] eqn:E2; try (apply IH; exact Hp1).
+    assert (Hp2 : R (π s) (π s2)) by (etransitivity; [exact Hp1|eapply Hhb; exact E2]).
+    destruct (0 <? _); [apply IH; exact Hp2|].
+    destruct (insert_htx s2 _ _) as [s3|?|?] eqn:E3; try (apply IH; exact Hp2).
+    apply IH. etransitivity; [exact Hp2|eapply Hhtx; exact E3]. }
+  intros l live ij. apply G. reflexivity.
+Qed.
+
+Lemma pr_snapshot_payouts h ts rates s s' : snapshot_payouts c h ts rates s = Ok s' -> R (π s) (π s').
+Proof.
+  intros H. unfold snapshot_payouts in H. cbv zeta in H.
+  destruct (existsb _ _); [discriminate|]. destruct (existsb _ _); [discriminate|].
+  set (s1 := set_snaps s (bal s) (snap_cur s)) in *.
+  assert (E1 : R (π s) (π s1)) by apply Hsnaps.
+  match type of H with match ?l with [] => _ | _ => _ end = _ => destruct l as [|x0 lst0] end;
+    [inversion H; subst; exact E1|].
+  apply rbind_ok in H as (s2 & H1 & H). apply rbind_ok in H as (s3 & H2 & H3).
+  tr s1; [exact E1|]. tr s2; [eapply Hhb; exact H1|]. tr s3.
+  - revert H2. apply pr_fold. intros s0 p s4 Hs. destruct (two63 <=? snd p); [discriminate|]. eapply Hhtx; exact Hs.
+  - revert H3. apply pr_fold. intros; eapply pr_add; eauto.
+Qed.
+
+Lemma pr_developers_payouts h ts s s' : fst (developers_payouts c h ts s) = Ok s' -> R (π s) (π s').
+Proof.
+  unfold developers_payouts. cbv zeta. generalize dev_rewards as l. intros l.
+  set (step := fun (acc : Z * Z * (res db * db)) (d : Z * Z * Z * Z) => _).
+  assert (G : forall l0 ij r reached,
+             (forall s0, r = Ok s0 -> R (π s) (π s0)) ->
+             forall s1, fst (snd (fold_left step l0 (ij, (r, reached)))) = Ok s1 -> R (π s) (π s1)).
+  { induction l0 as [|d l0 IH]; intros [i j] r reached Hr s1 H; cbn [fold_left snd fst] in H; [apply Hr; exact H|].
+    unfold step at 2 in H. destruct r as [s0|e|e].
+    - destruct d as [[[a bits] pre] post].
+      destruct (add_to_balance s0 a PTickerPEG _) as [s2|e|e] eqn:Ea;
+        try (eapply IH; [|exact H]; intros ? HH; discriminate).
+      assert (Hp2 : R (π s) (π s2)) by (etransitivity; [apply Hr; reflexivity|eapply pr_add; exact Ea]).
+      destruct (insert_hbatch s2 _) as [s3|e|e] eqn:Eb;
+        try (eapply IH; [|exact H]; intros ? HH; discriminate).
+      assert (Hp3 : R (π s) (π s3)) by (etransitivity; [exact Hp2|eapply Hhb; exact Eb]).
+      destruct (insert_htx s3 _ _) as [s4|e|e] eqn:Ec;
+        try (eapply IH; [|exact H]; intros ? HH; discriminate).
+      eapply IH; [|exact H]. intros s5 HH; inversion HH; subst. etransitivity; [exact Hp3|eapply Hhtx; exact Ec].
+    - eapply IH; [|exact H]. intros ? HH; discriminate.
+    - eapply IH; [|exact H]. intros ? HH; discriminate. }
+  intros H. eapply (G l (0, 1) (Ok s) s); [|exact H]. intros s0 HH; inversion HH; subst; reflexivity.
+Qed.
+
+Ltac done_step H x Hx := apply obind_done in H as (x & Hx & H).
+
+Lemma pr_sync_block cm mem b s s' mem' : Ph (b_height b) -> sync_block c cm mem b s = Done (s', mem') -> R (π s) (π s').
+Proof.
+  intros HP H. unfold sync_block in H. cbv zeta in H.
+  done_step H s1 H1. apply of_res_done in H1.
+  assert (E1 : R (π s) (π s1)).
+  { destruct (_ =? c_V204EnhanceActivation c); [exact (pr_mint_tokens _ _ H1)|inversion H1; subst; reflexivity]. }
+  clear H1. done_step H s2 H2. apply of_res_done in H2.
+  assert (E2 : R (π s) (π s2)).
+  { tr s1; [exact E1|]. destruct (_ =? c_V204BurnMintedTokenActivation c); [exact (pr_nullify_minted _ _ _ H2)|inversion H2; subst; reflexivity]. }
+  clear H2 E1 s1. done_step H graded Hg. done_step H gradedS HgS.
+  done_step H st Hst. destruct st as [[s3 is_rates] ended].
+  assert (E3 : R (π s) (π s3)).
+  { tr s2; [exact E2|]. destruct (_ <? c_V20HeightActivation c).
+    - destruct graded as [v|]; [|inversion Hst; subst; reflexivity].
+      done_step Hst s4 H4. apply of_res_done in H4.
+      assert (E4 : R (π s2) (π s4)) by (eapply Hgrade; exact H4).
+      destruct (v_winners v); [inversion Hst; subst; exact E4|].
+      done_step Hst s5 H5. apply of_res_done in H5. inversion Hst; subst.
+      tr s4; [exact E4|eapply Hrates; [exact HP|exact H5]].
+    - destruct (grade_spr_err c cm b); [discriminate|].
+      done_step Hst s4 H4.
+      assert (E4 : R (π s2) (π s4)).
+      { destruct graded as [v|]; [apply of_res_done in H4; eapply Hgrade; exact H4|inversion H4; subst; reflexivity]. }
+      destruct (first_assets graded) as [|o0 o]; destruct (first_assets gradedS) as [|p0 p];
+        try (inversion Hst; subst; exact E4);
+        (destruct (select_rates c _ _ _); [|inversion Hst; subst; exact E4];
+         done_step Hst s5 H5; apply of_res_done in H5; inversion Hst; subst;
+         tr s4; [exact E4|eapply Hrates; [exact HP|exact H5]]). }
+  clear Hst E2 s2. destruct ended; [inversion H; subst; exact E3|].
+  done_step H st2 Hst2. destruct st2 as [s4 mem4].
+  assert (E4 : R (π s) (π s4)).
+  { tr s3; [exact E3|]. destruct (c_TransactionConversionActivation c <=? _); [|inversion Hst2; subst; reflexivity].
+    done_step Hst2 st Hs. destruct st as [s5 rates1].
+    assert (E5 : R (π s3) (π s5)).
+    { destruct ((c_V20HeightActivation c <=? _) && _); [|inversion Hs; subst; reflexivity].
+      done_step Hs s6 H6. apply of_res_done in H6. inversion Hs; subst. exact (pr_snapshot_payouts _ _ _ _ _ H6). }
+    done_step Hst2 st Hs2. destruct st as [s6 mem6].
+    assert (E6 : R (π s3) (π s6)).
+    { tr s5; [exact E5|]. destruct is_rates; [|inversion Hs2; subst; reflexivity].
+      done_step Hs2 s7 H7. apply of_res_done in H7.
+      assert (E7 : R (π s5) (π s7)).
+      { destruct ((c_V4OPRUpdate c <=? _) && _); [eapply Hbank; exact H7|inversion H7; subst; reflexivity]. }
+      destruct (get_averages cm _ mem _) as [avgs mem'']. done_step Hs2 s8 H8. apply of_res_done in H8.
+      inversion Hs2; subst. tr s7; [exact E7|exact (pr_apply_holding _ _ _ _ _ _ H8)]. }
+    done_step Hst2 s7 H7. inversion Hst2; subst. tr s6; [exact E6|].
+    destruct (b_tx b); [apply of_res_done in H7; exact (pr_apply_tx_block _ _ _ _ H7)|inversion H7; subst; reflexivity]. }
+  clear Hst2 E3 s3. done_step H s5 H5.
+  assert (E5 : R (π s) (π s5)).
+  { tr s4; [exact E4|]. destruct (_ <? c_V20HeightActivation c); [apply of_res_done in H5; exact (pr_apply_factoid_block _ _ _ _ H5)|inversion H5; subst; reflexivity]. }
+  done_step H s6 H6.
+  assert (E6 : R (π s) (π s6)).
+  { tr s5; [exact E5|]. destruct graded; [apply of_res_done in H6; exact (pr_pay_winners _ _ _ _ H6)|inversion H6; subst; reflexivity]. }
+  done_step H s7 H7.
+  assert (E7 : R (π s) (π s7)).
+  { tr s6; [exact E6|]. destruct (c_V20HeightActivation c <=? _); [|inversion H7; subst; reflexivity].
+    destruct gradedS; [apply of_res_done in H7; exact (pr_pay_winners _ _ _ _ H7)|inversion H7; subst; reflexivity]. }
+  done_step H s8 H8. inversion H; subst. tr s7; [exact E7|].
+  destruct ((c_V20DevRewardsHeightActivation c <=? _) && _); [apply of_res_done in H8; exact (pr_developers_payouts _ _ _ _ H8)|inversion H8; subst; reflexivity].
+Qed.
+
+Theorem pr_step_block cm mem b s' mem' : Ph (b_height b) -> step_block c cm mem b = Done (s', mem') -> R (π cm) (π s').
+Proof.
+  intros HP H. unfold step_block in H. cbv zeta in H.
+  done_step H r Hr. destruct r as [s1 mem1]. done_step H s2 H2. apply of_res_done in H2. inversion H; subst.
+  tr s1; [|eapply Hsynced; exact H2].
+  etransitivity; [|eapply pr_sync_block; [exact HP|exact Hr]].
+  destruct (_ =? c_V202EnhanceActivation c); destruct (_ =? c_V20DevRewardsHeightActivation c);
+    try reflexivity; try apply pr_nullify_burn.
+  etransitivity; apply pr_nullify_burn.
+Qed.
+End WithCfg.
+End Pres.
